@@ -25,6 +25,7 @@ type Universe struct {
 	needOrder   bool // string ordering axioms requested
 	extIfaces   []string
 	bodyText    string // body + goals, to decide which axioms are needed
+	trgAxiom    bool
 }
 
 func newUniverse(theoryStrings bool) *Universe {
@@ -279,6 +280,12 @@ func (u *Universe) boxFn(sortName string) (box, unbox string) {
 	if _, ok := u.ufs[unbox]; !ok {
 		u.uf(unbox, fmt.Sprintf("(declare-fun %s (Int) %s)", unbox, sortName))
 		u.axioms = append(u.axioms, fmt.Sprintf("(assert (forall ((x!b %s)) (! (= (%s (%s x!b)) x!b) :pattern ((%s x!b)))))", sortName, unbox, box, box))
+		if sortName == "Str" || sortName == "String" || sortName == "Int" {
+			// payloads of boxed interface values are box images: only for sorts that are
+			// certainly infinite, where box can be taken to be a bijection onto the payload
+			// space (for a finite sort such as an empty struct the axiom would be contradictory)
+			u.axioms = append(u.axioms, fmt.Sprintf("(assert (forall ((v!b Int)) (! (= (%s (%s v!b)) v!b) :pattern ((%s v!b)))))", box, unbox, unbox))
+		}
 	}
 	return
 }
@@ -337,11 +344,15 @@ func (u *Universe) prelude() string {
 			b.WriteString("(assert (forall ((a Str) (i Int)) (! (and (<= 0 (sat a i)) (<= (sat a i) 255)) :pattern ((sat a i)))))\n")
 		}
 		if u.needOrder {
-			b.WriteString("(declare-fun slt (Str Str) Bool)\n")
-			b.WriteString("(assert (forall ((a Str)) (not (slt a a))))\n")
-			b.WriteString("(assert (forall ((a Str) (b Str) (c Str)) (! (=> (and (slt a b) (slt b c)) (slt a c)) :pattern ((slt a b) (slt b c)))))\n")
-			b.WriteString("(assert (forall ((a Str) (b Str)) (! (or (slt a b) (= a b) (slt b a)) :pattern ((slt a b)))))\n")
-			b.WriteString("(assert (forall ((a Str) (b Str)) (! (not (and (slt a b) (slt b a))) :pattern ((slt a b)))))\n")
+			// The byte-wise order of strings is a countable linear order, so it embeds
+			// into the rationals: slt(a, b) is srank(a) < srank(b) for an injective rank.
+			// (No transitivity/totality axioms: real arithmetic provides them.)
+			b.WriteString("(declare-fun srank (Str) Real)\n(declare-fun sunrank (Real) Str)\n")
+			b.WriteString("(define-fun slt ((a Str) (b Str)) Bool (< (srank a) (srank b)))\n")
+			b.WriteString("(assert (forall ((a Str)) (! (= (sunrank (srank a)) a) :pattern ((srank a)))))\n")
+			if _, ok := u.lits[""]; ok {
+				b.WriteString("(assert (forall ((a Str)) (! (<= (srank lit$empty) (srank a)) :pattern ((srank a)))))\n")
+			}
 		}
 	}
 	for _, n := range u.ufOrder {
@@ -349,6 +360,9 @@ func (u *Universe) prelude() string {
 	}
 	for _, a := range u.axioms {
 		b.WriteString(a + "\n")
+	}
+	if u.trgAxiom {
+		b.WriteString("(assert (forall ((x!t Int)) (! (=> (trg x!t) (trg1 x!t)) :pattern ((trg x!t)))))\n")
 	}
 	if len(u.extIfaces) > 1 {
 		b.WriteString("(assert (distinct " + strings.Join(u.extIfaces, " ") + "))\n")
